@@ -13,7 +13,7 @@ CHECKS = {
         "technique": "guard facts on all CFG paths + reaching definitions + must-pass-through + symbolic stride/offset agreement + abstract evaluation of small pure functions over enumerated finite / boundary domains with symbolic values (engine/minieval.py; nothing is imported or run) (static)",
     },
     "C02": {
-        "text": "The bulk walk shares the GETNEXT walk's loop (delegation decided); in addition a container-kind analysis shows that every fetcher returns a faithful prefix of the response bindings (no OID-keyed container that collapses duplicates), the GETBULK size bound is decided against the RFC 3416 formula by simulating the operation's CFG on an integer grid, and request counters / response split / bulk size agree.",
+        "text": "The bulk walk shares the GETNEXT walk's loop (delegation decided); in addition a container-kind analysis shows that every fetcher returns a faithful prefix of the response bindings (no OID-keyed container that collapses duplicates), the GETBULK size bound is decided against the RFC 3416 formula by simulating the operation's CFG on an integer grid, and request counters / response split / bulk size agree. Added later: the composition fetcher -> regroup -> unfinished is evaluated on GETBULK responses shortened below a whole number of rows (RFC 3416 4.2.3); the current tree drops the roots whose column came back empty - recorded as known finding D17.",
         "note": "Trusted: ast, the analyser, RFC 3416 4.2.3 bound. Relies on C01's rules for the shared loop. Not decided: agreement of both walks on every database and agent truncation policy as a whole.",
         "technique": "container-kind (multiplicity) dataflow + CFG simulation on an integer grid against the RFC formula + abstract evaluation of small pure functions over enumerated finite / boundary domains with symbolic values (engine/minieval.py; fetcher / operation contracts in rules/fetcheval.py) (static)",
     },
@@ -64,7 +64,7 @@ CHECKS = {
         "technique": "path simulation under credential atoms + argument-by-position provenance (static)",
     },
     "C12": {
-        "text": "Dominance of discovery over every read of the discovery cache, provenance of security and default context engine id, dependence of the engine time sent on a local clock read relative to the discovery moment (path-sensitive reaching definitions), usmStats report table, discovery id check. The absence of any re-synchronisation path after an agent reboot is a genuine defect recorded as known finding.",
+        "text": "Dominance of discovery over every read of the discovery cache, provenance of security and default context engine id, dependence of the engine time sent on a local clock read relative to the discovery moment (path-sensitive reaching definitions), usmStats report table, discovery id check. The absence of any re-synchronisation path after an agent reboot is a genuine defect recorded as known finding. Added later: the direction of the engine-time estimate (discovered time plus elapsed seconds, evaluated), the usmStats table and its restriction to Report PDUs decided by evaluation, and the provenance of the discovery data (engine id, boots, time read from the reply's security parameters).",
         "note": "Trusted: ast, the analyser, RFC 3414. Not decided: drift arithmetic between local and agent clock.",
         "technique": "dominance over the CFG + path-sensitive reaching definitions + who-may-write the discovery cache (static)",
     },
@@ -100,12 +100,12 @@ CHECKS = {
         "technique": "effect analysis over the call graph + dominance (must-pass-through) + syntactic provenance of arguments (static)",
     },
     "C19": {
-        "text": "Kind evaluation of the trap decode closure against the SNMP message schema (every subscript / unpack / attribute must be valid for its kind; MPM selected by the version integer), dominance of the source assignment and of the decode over the single callback scheduling, an unconditional forwarding receiver that never closes its transport, and the community check on every path of the community MPM decode.",
+        "text": "Kind evaluation of the trap decode closure against the SNMP message schema (every subscript / unpack / attribute must be valid for its kind; MPM selected by the version integer), dominance of the source assignment and of the decode over the single callback scheduling, an unconditional forwarding receiver that never closes its transport, and the community check on every path of the community MPM decode. Added later: the lazily decoded PDU is evaluated and its class checked (Trap / InformRequest) on every path before the callback is scheduled (genuine defect D19, repaired).",
         "note": "Trusted: ast, the analyser, RFC message schema. Not decided: UDP delivery, asyncio's handling of a raising callback/datagram handler, notification contents beyond binding positions.",
         "technique": "schema-kind evaluation + dominance (must-pass-through) + who-may-close (static)",
     },
     "C20": {
-        "text": "Every while loop of the resolved program (x690 included) is classified by a progress idiom; the TLV walker's cursor advance is derived by a relative lower-bound analysis of x690's get_value_slice / decode_length on every path; taint from decoded values to range()/repetition/allocation sinks (zero expected, positive fixture); decode paths write no shared state; no eager recursion on the decode path. One genuine defect (indefinite-length branch of x690) is recorded as known finding.",
+        "text": "Every while loop of the resolved program (x690 included) is classified by a progress idiom; the TLV walker's cursor advance is derived by a relative lower-bound analysis of x690's get_value_slice / decode_length on every path; taint from decoded values to range()/repetition/allocation sinks (zero expected, positive fixture); decode paths write no shared state; no eager recursion on the decode path. One genuine defect (indefinite-length branch of x690) is recorded as known finding. Added later: decoded USM security parameters are refused unless every member has its ASN.1 type (evaluated on wrongly typed / short / long sequences; genuine defect D18, repaired); the socket of an exchange is closed for every reply (adopted from C13); no response keeps a walk asking for the same OIDs for ever (adopted from C03).",
         "note": "Trusted: ast, the analyser, CPython facts (len >= 0, unsigned from_bytes >= 0, find >= -1). Not decided: time and memory as a concrete multiple of the datagram size.",
         "technique": "relative lower-bound abstract interpretation + loop progress-idiom classification + taint + effect analysis + abstract evaluation of small pure functions over enumerated finite / boundary domains with symbolic values (engine/minieval.py; fetcher / operation contracts in rules/fetcheval.py) (static)",
     },
